@@ -115,7 +115,7 @@ class Sensor:
         value = None
 
         if self.is_smart_sleep_node:
-            child = self.new_state[child_id]
+            child = self.new_state.get(child_id)
             value = child.values.get(value_type) if child else None
 
         if value is not None:
